@@ -4,4 +4,7 @@ Require Import ExtrOcamlBasic.
 Definition src_copy (amb m : msg) : observation := obs (copy_msg_with src_copy_cfg amb m).
 Definition src_copy_complete : bool := copy_ok src_copy_cfg.
 Definition src_time_sources : bool * bool := (tsrc_is_message src_time_process, tsrc_is_message src_time_boot).
-Extraction "async_model.ml" accept_async accepted_prefix x0 src_copy src_copy_complete src_time_sources render_rel.
+(* which thread runs the sink steps (ATake/ADone) when moveToOwnThread() was called with / without an application object: true = own thread *)
+Definition src_sink_on_own_thread (app : bool) : bool :=
+  match exec_thread src_worker_move app ADone, exec_thread src_worker_move app ATake with TOwn, TOwn => true | _, _ => false end.
+Extraction "async_model.ml" accept_async accepted_prefix x0 src_copy src_copy_complete src_time_sources render_rel src_sink_on_own_thread.
